@@ -161,16 +161,13 @@ func ruleS2S3(c *Ctx) {
 	}
 	c.ok("S2", "snapshot", sf.Pos(), la.holds(sf, "Adaptation.syncLock", 'W') && okCB, "the state snapshot (syncFn with the plugin's synchronize) is taken with the sync lock held exclusively",
 		"the sync callback runs with lockset "+la.describe(sf)+" (or not with the plugin's synchronize): a container created concurrently is seen neither in the snapshot nor as a creation request — or in both")
-	// activation
-	adT := m.named(pkgAdapt, "Adaptation")
-	var act *ssa.Store
-	for _, fs := range m.fieldStores(f, adT, "plugins") {
-		act = fs.Store
-	}
-	if act == nil {
-		c.violate("S2", "activation", f.Pos(), "the accept loop activates the synchronized plugin", "no store to Adaptation.plugins in the accept loop")
+	// activation: a store to the plugin list, or a call of a helper that performs it
+	sites := activationSites(m, f)
+	if len(sites) != 1 {
+		c.violate("S2", "activation", f.Pos(), "the accept loop activates the synchronized plugin in one place", fmt.Sprintf("%d activation sites in the accept loop", len(sites)))
 		return
 	}
+	act := sites[0].At
 	c.ok("S2", "activation", act.Pos(), la.holds(act, "Adaptation.syncLock", 'W'), "the activation happens with the sync lock still held exclusively",
 		"the plugin is added to the active list with lockset "+la.describe(act)+": between snapshot and activation a container can be created that the plugin never hears of")
 	// every path from the acquisition to the back edge / exit passes a release
@@ -219,8 +216,10 @@ func ruleS2S3(c *Ctx) {
 	if !dep {
 		bad = "the activation does not depend on the sync callback having succeeded: a plugin whose synchronization failed becomes active"
 	}
-	if !la.holds(act, "Adaptation.Mutex", 'W') {
-		bad = "the activation is not under the adaptation lock"
+	for _, st := range sites[0].Stores {
+		if !la.holds(st, "Adaptation.Mutex", 'W') {
+			bad = "the activation is not under the adaptation lock"
+		}
 	}
 	c.ok("S3", "activation", act.Pos(), bad == "", "the plugin is activated only after a successful snapshot, under the adaptation lock", bad)
 }
@@ -249,7 +248,21 @@ func ruleS4(c *Ctx) {
 					}
 				}
 			}
-			c.ok("S4", key, fs.Store.Pos(), isFilter || f == al || f == sp, fmt.Sprintf("%s does not activate plugins outside registration and start-up", funcKey(f)),
+			okCtx := f == al || f == sp
+			if !okCtx && !isFilter {
+				// a helper that is only reached from the accept loop or start-up
+				cs := m.callersOf(f)
+				okCtx = len(cs) > 0 && len(m.funcRefs(f)) == 0
+				for _, x := range cs {
+					if x.Caller != al && x.Caller != sp {
+						okCtx = false
+					}
+					if _, isGo := x.Instr.(*ssa.Go); isGo {
+						okCtx = false
+					}
+				}
+			}
+			c.ok("S4", key, fs.Store.Pos(), isFilter || okCtx, fmt.Sprintf("%s does not activate plugins outside registration and start-up", funcKey(f)),
 				"a plugin is added to the active list outside the accept loop's exclusive section and outside start-up: it never received a state snapshot")
 		}
 	}
@@ -317,4 +330,79 @@ func ruleB4(c *Ctx) {
 		}
 	}
 	c.ok("B4", "startPlugins/assign", sp.Pos(), okA, "start-up activates the kept plugins only after the sync callback returned nil", "r.plugins is assigned although the runtime's sync callback may have failed")
+}
+
+// isActivatingStore: a store to Adaptation.plugins that adds elements (neither nil nor a filter of the list itself).
+func isActivatingStore(m *Module, f *ssa.Function, st *ssa.Store) bool {
+	if isNilConst(st.Val) {
+		return false
+	}
+	mf := newMergeFn(m, f)
+	if ins, local := mf.insertions(st.Val); local && len(ins) > 0 {
+		filter := true
+		for _, i := range ins {
+			coll, _ := rangeOf(i.elem)
+			if i.elem == nil || coll == nil || m.ap(coll).PathString() != "plugins" {
+				filter = false
+			}
+		}
+		if filter {
+			return false
+		}
+	}
+	return true
+}
+
+// activators: functions of the adaptation package that (directly or through a callee) add plugins to the active list.
+func activators(m *Module) map[*ssa.Function][]*ssa.Store {
+	adT := m.named(pkgAdapt, "Adaptation")
+	direct := map[*ssa.Function][]*ssa.Store{}
+	for _, f := range m.funcsInPkg(pkgAdapt) {
+		for _, fs := range m.fieldStores(f, adT, "plugins") {
+			if isActivatingStore(m, f, fs.Store) {
+				direct[f] = append(direct[f], fs.Store)
+			}
+		}
+	}
+	return direct
+}
+
+// activationSites: the instructions of f at which a plugin becomes active, with the stores behind them.
+type actSite struct {
+	At     ssa.Instruction
+	Stores []*ssa.Store
+}
+
+func activationSites(m *Module, f *ssa.Function) []actSite {
+	acts := activators(m)
+	var out []actSite
+	for _, st := range acts[f] {
+		out = append(out, actSite{st, []*ssa.Store{st}})
+	}
+	var viaCall func(g *ssa.Function, depth int) []*ssa.Store
+	viaCall = func(g *ssa.Function, depth int) []*ssa.Store {
+		if g == nil || depth > 2 {
+			return nil
+		}
+		res := append([]*ssa.Store{}, acts[g]...)
+		for _, ci := range calls(g) {
+			if h := m.callee(ci.Common()); h != nil && h.Pkg != nil && h.Pkg.Pkg.Path() == pkgAdapt && h != g {
+				res = append(res, viaCall(h, depth+1)...)
+			}
+		}
+		return res
+	}
+	for _, ci := range calls(f) {
+		if _, isGo := ci.(*ssa.Go); isGo {
+			continue
+		}
+		g := m.callee(ci.Common())
+		if g == nil || g.Pkg == nil || g.Pkg.Pkg.Path() != pkgAdapt || g == f {
+			continue
+		}
+		if sts := viaCall(g, 0); len(sts) > 0 {
+			out = append(out, actSite{ci, sts})
+		}
+	}
+	return out
 }
